@@ -1,5 +1,20 @@
 """C09 — multiprecision gcd and modular inverse are exact, with valid Bezout cofactors."""
-import math, os, subprocess
+# SIZE AUDIT (quick tier), measured on cases('quick', Random(1)): bit widths of the operands (a, b) per op
+#   op                              quick max    thorough max   code supports                      boundary classes reached in quick
+#   gcd_ext/gcd_big/gcd_inv_mod/    1012 (N=16)  1012           BUint<N>: 64N bits; proved/supported every PAIR of widths from {0,1,2,31..33,63..65,100,127..129,192,256,
+#     gcd_noext  N=16                                           64N-12 = 1012 / 500 / 244          300,448,500,512,576,...,960,988,1000,1012} (same matrix as thorough,
+#                N=8                500          500            (oversize 1013..1024 chk only:     fewer shapes per pair); NOT reached before the audit: 64k-1 / 64k+1
+#                N=4                244          244            reached, 60 + 150 cases)           for k >= 3 (191, 193, 255, 257, ..., 447, 449, 511, 513, ...: 0..2
+#                                                                                                  cases) and the digit counts 5 and 6 altogether (320, 384 bits)
+#   gcd_reduce64/top64/mulword      64-bit words 64             u64 words, 2^32 / 2^36 / 2^63      all pairs of {0,1,2,2^24+-1,2^32+-1,2^36,2^63+-1,2^64-2,2^64-1}
+#   gcd_dot                         986          986            64N-37 bits                        random widths only (few at boundaries) -> family adds sz = digit
+#                                                                                                  count boundaries
+#   gcd_zn_inv/gcd_zn_gcd           500          500            ZmodN moduli <= 500 bits (8 words) widths {2,31,63,64,65,127,128,129,192,256,300,448,476,490,500} by
+#                                                                                                  rng.choice over 200 draws; 191/193/255/257/320/384/447/449/499: none
+# Added: boundary_cases (both tiers, first): every width 64k-1, 64k, 64k+1 up to the supported maximum of each N, against partners of
+# the same width, one digit shorter, 64 and 33 bits, shapes rotating over random/fib/hugeq/common/smalltop/pattern; gcd_dot with x of
+# exactly 64k-1/64k/64k+1 bits; zn_inv/zn_gcd with moduli of exactly those widths.
+import math, os, random, subprocess
 from vlib.pipeline import Case, driver_bin
 
 PID = "C09"
@@ -14,7 +29,9 @@ PROFILES = ["release", "chk"]
 TIMEOUT = 20.0
 W = 1 << 64
 
-RULE = ("all width pairs from {0,1,2,31..33,63..65,100,127..129,192,256,300,448,500,512,...,1012 bits} x shapes "
+RULE = ("first, in both tiers, a deterministic boundary family: every operand width 64k-1, 64k, 64k+1 up to 1012 / 500 / 244 bits (N = 16 / 8 / 4) "
+        "against partners of the same width, one digit shorter, 64 and 33 bits (shapes in rotation), dot_product and ZmodN inv/gcd at the same widths; then "
+        "all width pairs from {0,1,2,31..33,63..65,100,127..129,192,256,300,448,500,512,...,1012 bits} x shapes "
         "{random, common factor, multiple, equal, a=0, b=0, Fibonacci-like/continuant (small quotients), huge quotient, "
         "small top word, within 36 bits of the type width, below 64 bits}, N=16 (<=1012 bits), N=8 (<=500 bits), N=4; "
         "each pair is sent to gcd_ext, gcd_big and gcd_inv_mod; word-level ops (reduce64, top64, mulword, dot_product) on "
@@ -278,8 +295,60 @@ def _load_traces(cases):
         _TRACE[k] = "+".join(sorted(set(o.split(",")))) if o not in ("?", "-") else o
 
 
+def _fork(rng, label):
+    """own stream for the boundary family: depends on the run's seed, leaves the stream of the older families untouched"""
+    return random.Random(f"{label}:{rng.getstate()[1][:4]}")
+
+
+BOUNDARY_SHAPES = ["random", "fib", "hugeq", "common", "smalltop", "pattern"]
+
+
+def boundary_widths(N):
+    """64k-1, 64k, 64k+1 for every digit count k of BUint<N> inside the supported range, and the end of the range"""
+    top = MAXBITS[N]
+    ws = [w for k in range(1, N + 1) for w in (64 * k - 1, 64 * k, 64 * k + 1) if w <= top]
+    return ws + [top - 1, top]
+
+
+def boundary_cases(rng, tier):
+    """deterministic word-boundary classes of the operand widths (both tiers, yielded first)"""
+    j = 0
+    for N in (16, 8, 4):
+        top = MAXBITS[N]
+        for wa in boundary_widths(N):
+            for wb in sorted({wa, max(wa - 64, 1), 64, 33}):
+                sh = BOUNDARY_SHAPES[j % len(BOUNDARY_SHAPES)]
+                j += 1
+                a, b = make_pair(rng, sh, wa, wb, top)
+                if sh in ("random", "pattern"):
+                    assert a.bit_length() == wa and b.bit_length() == wb
+                if j % 2:
+                    a, b = b, a
+                yield from pair_cases(N, a, b, "edge-" + sh, full=(j % 3 == 0))
+            # both operands of exactly wa bits, random: the plain class for every width
+            a, b = rbits(rng, wa), rbits(rng, wa)
+            yield from pair_cases(N, a, b, "edge-random", full=True)
+    # dot_product: x of exactly 64k-1, 64k, 64k+1 bits (sz = its digit count), multipliers at the 2^36 limit
+    for N in (16, 8, 4):
+        mb = 64 * N - 37
+        for wx in [w for w in boundary_widths(N) if w <= mb] + [mb]:
+            x = rbits(rng, wx)
+            y = rng.choice([x, x - 1, rng.randrange(x + 1)])
+            sz = (wx + 63) // 64
+            a = rng.choice([1 << 36, -(1 << 36), rng.getrandbits(36), -rng.getrandbits(36)])
+            b = rng.choice([1 << 36, -(1 << 36), rng.getrandbits(36), -rng.getrandbits(36)])
+            yield Case(f"gcd_dot {N} {sz} {a} {x} {b} {y}")
+    # ZmodN::inv / gcd: moduli of exactly these widths
+    for w in boundary_widths(8):
+        for rep in range(2):
+            m = rbits(rng, w) | 1
+            x = rng.randrange(m) if rep else m - 1 - rng.getrandbits(8)
+            yield Case(f"gcd_zn_inv {m} {x}")
+            yield Case(f"gcd_zn_gcd {m} {x}")
+
+
 def cases(tier, rng, extended=False):
-    out = []
+    out = list(boundary_cases(_fork(rng, "C09-boundary"), tier))
     quick = tier == "quick"
     reps = 1 if quick else 6
     if extended:
